@@ -7,6 +7,7 @@ from sympy import Add, Mul, S, Rational
 from adcgen.expr_container import Expr
 from adcgen.indices import Index, get_symbols
 from adcgen.derivative import derivative
+from adcgen.sympy_objects import AntiSymmetricTensor
 import adcio
 import certfind
 import gen_terms as G
@@ -312,8 +313,33 @@ def run(ctx):
                  nontrivial=bool(der), kind=f"derivative:{name}")
 
 
-    for k in range(n):
-        e, tg, name = gen_expr(rng)
+    # terms that use (almost) the whole alphabet of a space: the lowest free
+    # names for the fresh indices come from the second generation of names
+    def big_terms():
+        NST = G.NonSymmetricTensor
+        out = []
+        for sp in "ov":
+            L = G.pool(sp, 8 if sp == "v" else 7)
+            for n_used in (len(L) - 1, len(L)):
+                xs = L[:n_used]
+                # target xs[0] on the removed tensor d^{x0}_{x1}; the other
+                # names sit on three further tensors
+                rest = xs[1:]
+                third = max(1, len(rest) // 3)
+                A = NST("qa", tuple(rest[:third + 1]))
+                B = NST("qb", tuple(rest[1:2 * third + 1]))
+                C = NST("qc", tuple(rest[third:]))
+                d1 = AntiSymmetricTensor("d", (xs[0],), (xs[1],), 0)
+                out.append((d1 * A * B * C * NST("qd", tuple(rest)),
+                            [xs[0]], "d"))
+                d2 = AntiSymmetricTensor("d", (xs[0], xs[1]),
+                                         (xs[2], xs[3]), 0)
+                out.append((Rational(1, 2) * d2 * NST("qd", tuple(xs[2:])),
+                            [xs[0], xs[1]], "d"))
+        return out
+    fixed = big_terms()
+    for k in range(n + len(fixed)):
+        e, tg, name = gen_expr(rng) if k < n else fixed[k - n]
         if e == 0:
             continue
         E = Expr(e, target_idx=tg)
